@@ -38,6 +38,9 @@ def main():
                        capture_output=True)
         r = subprocess.run(["git", "-C", wt, "apply", os.path.abspath(a.patch)], capture_output=True, text=True)
         if r.returncode != 0:
+            # context moved by a later fix: commit in /repo: three-way apply
+            r = subprocess.run(["git", "-C", wt, "apply", "-3", os.path.abspath(a.patch)], capture_output=True, text=True)
+        if r.returncode != 0:
             print("PATCH DOES NOT APPLY:", r.stderr[-500:])
             return 2
         env = dict(os.environ, VERIF_REPO=wt, VERIF_OUT=out, VERIF_SEED=a.seed)
